@@ -201,6 +201,12 @@ def full_sign_ok(sess, suite, kps, pkp, signers, msg=None, what="sign", replay_f
     comms, nonces, shares, resps = sign_round(sess, suite, kps, signers, msg)
     rp = lambda: [r[0] for r in sess.records[start:]]
     okall = True
+    if suite == "toy16" and (":id" in comms or any(r.err in ("GroupError.InvalidIdentityElement", "IdentityCommitment") for r in resps.values())):
+        # q = 65537: a zero nonce (identity commitment) or an identity group commitment really happens about once in a few
+        # thousand sessions; the code rightly refuses to sign then (C01's hypothesis excludes it) — the model comparison
+        # still covers these requests, the 'honest signers succeed' oracle does not apply
+        sess.count("degenerate:identity-on-toy16")
+        return False
     for i in signers:
         okall &= sess.oracle(resps[i].ok, "%s: sign failed for honest signer (%s)" % (what, resps[i].raw), rp())
     if not okall:
